@@ -24,7 +24,7 @@ REFUSED = hashlib.sha256(b"NotImplementedError").hexdigest()
 ROOT = os.path.dirname(os.path.dirname(os.path.dirname(os.path.abspath(__file__))))
 
 
-def run_child(history, hashseed, timeout=400):
+def run_child(history, hashseed, timeout=1800):
     env = dict(os.environ)
     env["PYTHONHASHSEED"] = str(hashseed)
     p = subprocess.run([sys.executable, "-m", "vf.props.c09_child", json.dumps(history)], cwd=ROOT, env=env, capture_output=True, text=True, timeout=timeout)
@@ -164,7 +164,7 @@ def task_shared(params, rec):
 
 
 TASKS = {"history": task_history, "shared": task_shared}
-SHARD_TIMEOUT = {"quick": 2400, "thorough": 5000}
+SHARD_TIMEOUT = {"quick": 4000, "thorough": 6000}
 
 POLL = ["other-targets", "alt-context", "tmp-symbols", "failing-traces", "deep-first-false", "apmath-first", "special-functions", "expression-churn"]
 
